@@ -343,6 +343,8 @@ def explore(prop, tier):
     import run_sched_sql
     sq = run_sched_sql.explore_sql(tier)
     tags.update(sq['tags']); viols += sq['violations']; errors += sq['errors']
+    pv, pe = same_seed_probe(); viols += pv; errors += pe; tags['same-seed-probe'] += 1
+    pv, pe = same_key_probe(); viols += pv; errors += pe; tags['same-key-probe'] += 1
     return dict(suite='sched', traces=len(trs) + sq['runs'], evaluations=sum(len(t['sched']) for t in trs) + sq['ops'], distinct_nontrivial=nontriv,
                 tags=dict(tags), divergences=divs, violations=viols,
                 samples=[dict(scen=t['case']['scen'], procs=repr(t['case']['procs']), schedule=''.join(str(s[0]) for s in t['sched'])) for t in trs[:3]],
@@ -362,7 +364,78 @@ def _deser_case(c):
     return c
 
 
+SAME_SEED_PROBE = r"""
+import os, sys, random, shutil, tempfile
+from klepto.archives import dir_archive
+root = tempfile.mkdtemp(); path = os.path.join(root, 'shared')
+dir_archive(path, cached=False)
+a2b_r, a2b_w = os.pipe(); b2a_r, b2a_w = os.pipe()
+class Slow(object):
+    done = False
+    def __reduce__(self):
+        if not Slow.done:
+            Slow.done = True
+            os.write(a2b_w, b'x'); os.read(b2a_r, 1)
+        return (str, ('value-of-a',))
+MODE = sys.argv[1]
+KB = 'b' if MODE == 'same-seed' else 'a'
+def worker_a():
+    if MODE == 'same-seed': random.seed(0)
+    dir_archive(path, cached=False)['a'] = Slow()
+def worker_b():
+    if MODE == 'same-seed': random.seed(0)
+    os.read(a2b_r, 1)
+    try: dir_archive(path, cached=False)[KB] = 'value-of-b'
+    finally: os.write(b2a_w, b'x')
+pids = []
+for work in (worker_a, worker_b):
+    pid = os.fork()
+    if not pid:
+        try: work()
+        finally: os._exit(0)
+    pids.append(pid)
+for pid in pids: os.waitpid(pid, 0)
+fresh = dir_archive(path, cached=False)
+got = dict((k, fresh.get(k, '<missing>')) for k in ('a', 'b'))
+print(repr(got))
+shutil.rmtree(root)
+"""
+
+
+def same_key_probe(prop='C14'):
+    """two processes store the SAME key of one dir_archive, B's whole store inside A's (two caches evicting the same key into a shared
+    archive): afterwards the key is there, readable, with one of the two values"""
+    env = dict(os.environ, PYTHONPATH=REPO)
+    p = subprocess.run([sys.executable, '-c', SAME_SEED_PROBE, 'same-key'], stdout=subprocess.PIPE, stderr=subprocess.PIPE, text=True, timeout=60, env=env, cwd='/tmp')
+    out = p.stdout.strip().splitlines()[-1] if p.stdout.strip() else ''
+    if p.returncode != 0 or not out:
+        return [], ['same-key probe failed to run: ' + p.stderr[-300:]]
+    if out not in (repr({'a': 'value-of-a', 'b': '<missing>'}), repr({'a': 'value-of-b', 'b': '<missing>'})):
+        return [dict(prop=prop, i=0, sig=dict(kind='same-key-writers-lose-the-entry', backend='dir'), probe='same-key', cfg=dict(probe='same-key'), ops=[],
+                     msg='two processes storing the SAME key of one dir_archive at overlapping times (two caches evicting one key into a shared archive): a fresh handle reads %s' % out)], []
+    return [], []
+
+
+def same_seed_probe():
+    """C14, first clause (writers to different keys of a dir_archive both end up present and intact) for two processes whose GLOBAL random
+    streams are in the same state (both called random.seed(0) - common in numerical code): B's whole store of key 'b' is placed inside A's
+    store of key 'a' (a pipe handshake inside the pickling of A's value). Staging names must not depend on the caller's random stream alone."""
+    env = dict(os.environ, PYTHONPATH=REPO)
+    p = subprocess.run([sys.executable, '-c', SAME_SEED_PROBE, 'same-seed'], stdout=subprocess.PIPE, stderr=subprocess.PIPE, text=True, timeout=60, env=env, cwd='/tmp')
+    out = p.stdout.strip().splitlines()[-1] if p.stdout.strip() else ''
+    if p.returncode != 0 or not out:
+        return [], ['same-seed probe failed to run: ' + p.stderr[-300:]]
+    if out != repr({'a': 'value-of-a', 'b': 'value-of-b'}):
+        return [dict(prop='C14', i=0, sig=dict(kind='same-seed-writers-collide', backend='dir'), probe='same-seed',
+                     msg='two processes with the same random state (random.seed(0)) storing DIFFERENT keys of one dir_archive at overlapping times: a fresh handle reads %s' % out)], []
+    return [], []
+
+
 def replay(prop, obj):
+    if obj.get('probe') in ('same-seed', 'same-key'):
+        v, e = same_seed_probe() if obj['probe'] == 'same-seed' else same_key_probe()
+        if e: raise NoVerdict(e[0])
+        return dict(violations=[dict(prop='C14', sig=x['sig'], msg=x['msg'], i=0) for x in v], divergence=None)
     if 'sqlcase' in obj:
         import run_sched_sql
         return run_sched_sql.replay(obj)
@@ -375,6 +448,8 @@ def replay(prop, obj):
 
 
 def shrink_and_save(prop, v):
+    if v.get('probe'):
+        return write_replay(prop, 'violation', dict(suite='sched', property=prop, probe=v['probe'], signature=v['sig'], message=v['msg']))
     if 'sqlcase' in v:
         return write_replay(prop, 'violation', dict(suite='sched', property=prop, sqlcase=v['sqlcase'], signature=v['sig'], message=v['msg']))
     return write_replay(prop, 'violation', dict(suite='sched', property=prop, case=_ser_case(v['case']), schedule=v['schedule'], signature=v['sig'], message=v['msg']))
